@@ -68,6 +68,7 @@ type sim struct {
 	frozenHeight uint32
 	frozen2      int // a second frozen address with its own start height (-1: none)
 	frozenHeight2 uint32
+	arbKeys     []arbiterKey // the simulated environment's cross-chain arbiters (C33; nil: none)
 	ccFreeze    uint32 // cross-chain UTXO freeze height (0: policy disabled)
 	ccRestrict   uint32 // cross-chain UTXO restriction height
 }
@@ -183,8 +184,9 @@ func (s *sim) start(fresh bool) error {
 	cfg := baseConfig(&s.actors[0].acc.ProgramHash)
 	s.applyKnobs(cfg)
 	s.applyPolicyKnobs(cfg)
+	s.applyWithdrawKnobs(cfg)
 	s.v2active = uint32(s.c.Plan.Knob("v2active", 0))
-	n, err := newNode(s.dir, cfg, s.actors[1%len(s.actors)].acc.Address, s.v2active)
+	n, err := newNode(s.dir, cfg, s.actors[1%len(s.actors)].acc.Address, s.v2active, arbiterInfos(s.arbKeys))
 	if err != nil {
 		return err
 	}
@@ -290,6 +292,9 @@ func propOfReason(why string) string {
 	if strings.HasPrefix(why, "unsigned-spend-from-script-address") {
 		return "C05"
 	}
+	if strings.HasPrefix(why, "withdraw-") || strings.HasPrefix(why, "sidechain-hash-withdrawn-twice") {
+		return "C33"
+	}
 	switch classOf(why) {
 	case "outputs-exceed-inputs", "negative-output", "fee-too-small":
 		return "C01"
@@ -305,6 +310,8 @@ func propOfReason(why string) string {
 		return "C32"
 	case "crosschain-utxo-frozen", "crosschain-utxo-restricted":
 		return "C31"
+	case "sidechain-hash-withdrawn-twice":
+		return "C33"
 	case "auxpow-for-other-hash":
 		return "C10"
 	}
@@ -465,7 +472,7 @@ func (s *sim) submit(spec TxSpec) {
 	var info *txInfo
 	conflict := false
 	s.buildHeight = tip.height + 1
-	if spec.InKind == 6 { // deliberately collide with a pooled transaction's input
+	if spec.InKind == 6 && spec.Wd == nil { // deliberately collide with a pooled transaction's input
 		pool := s.poolTxs()
 		if len(pool) == 0 {
 			return
@@ -486,6 +493,24 @@ func (s *sim) submit(spec TxSpec) {
 	if conflict {
 		label = "input-already-spent"
 		c.Fault("mempool-conflicting-spend")
+	}
+	if info.facts.wd != nil && label == "" {
+		// a pooled withdrawal already claims one of these side-chain hashes
+		for _, pi := range s.poolTxs() {
+			if pi.facts.wd == nil {
+				continue
+			}
+			for _, a := range pi.facts.wd.hashes {
+				for _, b := range info.facts.wd.hashes {
+					if a == b {
+						label = fmt.Sprintf("sidechain-hash-withdrawn-twice/v%d-claimed-by-a-pooled-withdrawal", info.facts.wd.ver)
+					}
+				}
+			}
+		}
+		if label != "" {
+			c.Fault("mempool-conflicting-withdrawal")
+		}
 	}
 	if label != "" {
 		c.Fault("byzantine-tx:" + classOf(label))
